@@ -689,6 +689,14 @@ class SourceHandler:
         elif self._params.fp.metadata_only:
             # Special case: Metadata Only, no EOF required.
             if self._params.closure_requested:
+                if self.transmission_mode == TransmissionMode.UNACKNOWLEDGED:
+                    # No EOF PDU is sent which would start the check timer.
+                    assert self._params.remote_cfg is not None
+                    self._params.check_timer = self.check_timer_provider.provide_check_timer(
+                        local_entity_id=self.cfg.local_entity_id,
+                        remote_entity_id=self._params.remote_cfg.entity_id,
+                        entity_type=EntityType.SENDING,
+                    )
                 self.states.step = TransactionStep.WAITING_FOR_FINISHED
             else:
                 self.states.step = TransactionStep.NOTICE_OF_COMPLETION
